@@ -544,6 +544,68 @@ def g_rmtv():
     return {'Rmtv': (text, js)}
 
 
+@group('riemann2d')
+def g_riemann2d():
+    """steady 2-D Riemann problem: the closed-form state functions of SetupRiemannProblem (oblique shock and
+    Prandtl-Meyer fan parameterised by the downstream pressure, Prandtl-Meyer function, theta-beta-M relation used for
+    the shock angle); the intersection of the pressure-deflection curves (interp / bisect / fsolve) is outside the
+    translated subset"""
+    from py2coq import Interp, Func, free_vars, Raised
+    mod = Module(os.path.join(S, 'riemann2D_2section_steadystate/riemann2D_2section_steadystate.py'))
+    cn = mod.classes['SetupRiemannProblem']
+    meth = {st.name: st for st in cn.body if isinstance(st, ast.FunctionDef)}
+    text = HEADER % 'exactpack/solvers/riemann2D_2section_steadystate/riemann2D_2section_steadystate.py'
+    js = {}
+    state = [('var', v) for v in ('p0', 'r0', 'M0', 'theta0_deg', 'g')]
+
+    def run(mname, args):
+        selfo = Obj('', {}, frozen=True, name='self')
+        helpers = {}
+        def factory(name):
+            def h(interp_, n, env, base):
+                a = [interp_.ev(x, env) for x in n.args]
+                return interp_.call_func(Func(meth[name], mod), [selfo] + a, {}, n)
+            return h
+        for nm in meth:
+            helpers[('method', nm)] = factory(nm)
+        interp = Interp(mod, helpers)
+        try:
+            ret = interp.call_func(Func(meth[mname], mod), [selfo] + args, {}, meth[mname])
+        except Raised:
+            raise Unsupported('riemann2d: %s always raises' % mname)
+        if interp.raises:
+            raise Unsupported('riemann2d: %s raises on some path' % mname)
+        return ret
+    order = ['ps', 'p0', 'r0', 'M0', 'theta0_deg', 'g']
+    for mname, pfx in (('compression_states', 'r2d_shock'), ('expansion_states', 'r2d_fan')):
+        ret = run(mname, [('var', 'ps'), list(state)])
+        if not (isinstance(ret, (tuple, list)) and len(ret) == 3):
+            raise Unsupported('riemann2d: %s does not return three values' % mname)
+        for nm, e in zip(('deflection', 'density', 'Mach'), ret):
+            args = [a for a in order if a in free_vars(e)]
+            text += '\n' + emit_function('%s_%s' % (pfx, nm), args, e, comment='%s(ps, state)[%s]' % (mname, nm))
+            text += '#[global] Hint Unfold %s_%s : epgen.\n' % (pfx, nm)
+            js['%s_%s' % (pfx, nm)] = {'args': args, 'expr': expr_to_json(e)}
+    e = run('PrandtlMeyer_function', [('var', 'Ms'), ('var', 'g')])
+    text += '\n' + emit_function('r2d_prandtl_meyer', ['Ms', 'g'], e, comment='PrandtlMeyer_function(Ms, g)')
+    text += '#[global] Hint Unfold r2d_prandtl_meyer : epgen.\n'
+    js['r2d_prandtl_meyer'] = {'args': ['Ms', 'g'], 'expr': expr_to_json(e)}
+    # theta-beta-M relation inside determine_shock_angle (nested function get_shock_contact_angle)
+    dsa = meth['determine_shock_angle']
+    inner = [st for st in dsa.body if isinstance(st, ast.FunctionDef) and st.name == 'get_shock_contact_angle']
+    if len(inner) != 1:
+        raise Unsupported('riemann2d: determine_shock_angle has no get_shock_contact_angle')
+    f = inner[0]
+    mod.funcs['get_shock_contact_angle'] = f
+    ret, _ = translate_function(mod, 'get_shock_contact_angle', [('x', 'beta')], helpers=None) if False else (None, None)
+    interp = Interp(mod, {})
+    e = interp.exec_body(f.body, {'x': ('var', 'beta'), 'M': ('var', 'M'), 'g': ('var', 'g')})
+    text += '\n' + emit_function('r2d_theta_beta_M', ['beta', 'M', 'g'], e, comment='tan(deflection) as a function of the shock angle beta (determine_shock_angle.get_shock_contact_angle)')
+    text += '#[global] Hint Unfold r2d_theta_beta_M : epgen.\n'
+    js['r2d_theta_beta_M'] = {'args': ['beta', 'M', 'g'], 'expr': expr_to_json(e)}
+    return {'Riemann2D': (text, js)}
+
+
 @group('radshock')
 def g_radshock():
     """travelling-wave structure of the radiative-shock wrappers' _run (np.interp on flipped profile arrays with
